@@ -108,9 +108,13 @@ func (iloc *itemLoc) Copy(src *itemLoc) {
 	}
 	// NOTE: This trick only works because of the global lock. No reason to lock
 	// src independently of i.
-	iloc.loc = src.loc
+	// Read the item before its location.  A concurrent Flush() may persist the
+	// item (setting loc) and a reader's visit may then evict it (clearing item)
+	// at any moment; reading loc first could see neither and lose the item.
+	item := src.item
 	verifYield("item-copy")
-	iloc.item = src.item
+	iloc.loc = src.loc
+	iloc.item = item
 }
 
 const itemLocHdrLength int = 4 + keyPSize + 4 + 4
@@ -229,10 +233,11 @@ func (iloc *itemLoc) read(c *Collection, withValue bool) (icur *Item, err error)
 
 // NumBytes return the number of bytes needed for the collection
 func (iloc *itemLoc) NumBytes(c *Collection) int {
+	// Item before location, for the same reason as in Copy().
+	i := iloc.Item()
+	verifYield("item-numbytes")
 	loc := iloc.Loc()
 	if loc.isEmpty() {
-		verifYield("item-numbytes")
-		i := iloc.Item()
 		if i == nil {
 			return 0
 		}
